@@ -105,7 +105,17 @@ def check(case):
         nontrivial = len(exp) >= 2 and bool(labels)
 
     nd = NoteData(text)
+    # iterating is repeatable: an abandoned or nested iteration must not change what a later one yields
+    it = iter(nd)
+    first = next(it, None)
+    for _outer in nd:
+        for _inner in nd:
+            break
+        break
+    del it
     got = list(nd)
+    need(first is None or (got and fields(first) == fields(got[0])), "the first note differs between two iterations of the same NoteData")
+    need([fields(n) for n in nd] == [fields(n) for n in got], "a second iteration of the same NoteData yields different notes")
     short = text if len(text) < 400 else text[:400] + "..."
     need(len(got) == len(exp), f"{len(got)} notes decoded, expected {len(exp)}; text {short!r}")
     for i, (g, e) in enumerate(zip(got, exp)):
